@@ -47,12 +47,22 @@ def sym_kex(kex, key, enc, mac, comp=('none',), enc_cs=None, mac_cs=None, comp_c
     return k
 
 
-def audit_server(script, args=(), monitors=None, spec=None, timeout=60, host='127.0.0.1', hashseed='0', base=BASE_ARGS, color=True, cwd=None, keep_peer=False):
-    """Start a ServerPeer for `script`, run the CLI against it, stop the peer.  Returns (Run, peer)."""
+def audit_server(script, args=(), monitors=None, spec=None, timeout=60, host='127.0.0.1', hashseed='0', base=BASE_ARGS, color=True, cwd=None, keep_peer=False, via_file=False):
+    """Start a ServerPeer for `script`, run the CLI against it (named on the command line, or - via_file - as the only line of a targets file), stop the peer.  Returns (Run, peer)."""
     p = peer.ServerPeer(script, host=host)
+    d = None
     try:
-        r = runner.run_cli(list(base) + list(args) + [p.target()], timeout=timeout, monitors=monitors, spec=spec, hashseed=hashseed, color=color, cwd=cwd)
+        how = [p.target()]
+        if via_file:
+            import os
+            d = runner.scratch_dir('tf')
+            with open(os.path.join(d, 'targets.txt'), 'w') as f:
+                f.write(p.target() + '\n')
+            how = ['-T', os.path.join(d, 'targets.txt')]
+        r = runner.run_cli(list(base) + list(args) + how, timeout=timeout, monitors=monitors, spec=spec, hashseed=hashseed, color=color, cwd=cwd)
     finally:
+        if d:
+            runner.cleanup(d)
         if not keep_peer:
             p.stop()
     return r, p
